@@ -91,8 +91,17 @@ structure Lay where
   align : Nat := 1
 deriving DecidableEq, Repr
 
+/-- how a transparent wrapper takes part in schemas and the packed decision -/
+inductive WrapKind where
+  | boxed   -- Box, Rc, Arc: schema goes through the recursion guard
+  | plain   -- Mutex, RwLock, RefCell, Cow: transparent
+  | cell    -- Cell<T>: transparent, and `Packed` iff `T` is
+deriving DecidableEq, Repr
+
 inductive SeqKind where
-  | vec                  -- Vec / Box<[T]> / Arc<[T]> / &[T]: bulk-capable, 1 000 000 guard on the regular path
+  | vec                  -- Vec<T>: bulk-capable, 1 000 000 guard on the regular path
+  | slice                -- Box<[T]> / Arc<[T]>: as `vec` (read through Vec<T>); memory layout unknown to the schema
+  | indexSet             -- IndexSet: as `plain`; its schema wraps the key in a one-field struct
   | plain                -- VecDeque, BinaryHeap, SmallVec, IndexSet: element-wise, no guard
   | set                  -- HashSet, BTreeSet: as `plain`; iteration order is not part of the value, duplicates collapse
   | bag                  -- BinaryHeap: as `plain`; iteration order is not part of the value
@@ -102,12 +111,12 @@ deriving DecidableEq, Repr
 mutual
 inductive Ty where
   | prim (p : Prim)
-  | str (cap : Option Nat)
+  | str (cap : Option Nat) (std : Bool)            -- `std`: std `String` (known memory layout); else Arc<str>, PathBuf, ArrayString
   | seq (k : SeqKind) (t : Ty)
-  | map (k v : Ty)
+  | map (btree : Bool) (k v : Ty)                  -- HashMap / IndexMap (`btree = false`) or BTreeMap
   | opt (t : Ty)
   | res (a b : Ty)
-  | wrap (cell : Bool) (t : Ty)                    -- Box, Rc, Arc, RefCell, Mutex, RwLock, Cow; `cell = true`: Cell<T> (packed iff T is)
+  | wrap (k : WrapKind) (t : Ty)                   -- Box, Rc, Arc, RefCell, Mutex, RwLock, Cow, Cell
   | tup (lay : Lay) (offs : List Nat) (ts : TyL)
   | arr (n : Nat) (t : Ty)
   | struct (name : String) (repr : ReprAttr) (lay : Lay) (fs : FieldL)
@@ -152,7 +161,7 @@ mutual
 def memSize : Ty → Option Nat
   | .prim p => some p.memSize
   | .arr n t => (memSize t).map (n * ·)
-  | .wrap true t => memSize t
+  | .wrap .cell t => memSize t
   | .tup lay _ _ => some lay.size
   | .struct _ _ lay _ => some lay.size
   | .enum _ _ lay _ => some lay.size
@@ -162,7 +171,7 @@ end
 def memAlign : Ty → Nat
   | .prim p => p.memAlign
   | .arr _ t => memAlign t
-  | .wrap true t => memAlign t
+  | .wrap .cell t => memAlign t
   | .tup lay _ _ => lay.align
   | .struct _ _ lay _ => lay.align
   | .enum _ _ lay _ => lay.align
@@ -184,7 +193,7 @@ mutual
 def isPacked : Ty → Nat → Bool
   | .prim p, _ => p.packed
   | .arr _ t, v => isPacked t v
-  | .wrap true t, v => isPacked t v
+  | .wrap .cell t, v => isPacked t v
   | .tup lay offs ts, v =>
     -- `impl Packed for (T1,..)`: first at 0, (middle offsets,) sizes sum to the total, all members packed
     allPackedL ts v && tupleChain lay.size offs ts
@@ -287,7 +296,8 @@ end
 def seqMode (k : SeqKind) (bulk : Option (Nat × Nat)) : SeqMode :=
   match k with
   | .vec => { limit := bulk.isNone, bulk := bulk, cap := none }
-  | .plain | .set | .bag => { limit := false, bulk := none, cap := none }
+  | .slice => { limit := bulk.isNone, bulk := bulk, cap := none }
+  | .plain | .set | .bag | .indexSet => { limit := false, bulk := none, cap := none }
   | .arrayVec c => { limit := false, bulk := bulk, cap := some c }
 
 def bulkInfo (t : Ty) (v : Nat) : Option (Nat × Nat) :=
@@ -302,9 +312,9 @@ mutual
 /-- what a reader at data version `v` expects -/
 def wireOf : Ty → Nat → W
   | .prim p, _ => p.wire
-  | .str cap, _ => .str cap
-  | .seq k t, v => .seq (seqMode k (match k with | .plain | .set | .bag => none | _ => bulkInfo t v)) (wireOf t v)
-  | .map k x, v => .seq {} (.prod (.cons (wireOf k v) (.cons (wireOf x v) .nil)))
+  | .str cap _, _ => .str cap
+  | .seq k t, v => .seq (seqMode k (match k with | .plain | .set | .bag | .indexSet => none | _ => bulkInfo t v)) (wireOf t v)
+  | .map _ k x, v => .seq {} (.prod (.cons (wireOf k v) (.cons (wireOf x v) .nil)))
   | .opt t, v => .opt (wireOf t v)
   | .res a b, v => .res (wireOf a v) (wireOf b v)
   | .wrap _ t, v => wireOf t v
@@ -341,9 +351,9 @@ mutual
 /-- what a writer at data version `v` emits (`savefile_versions_as` plays no part when writing) -/
 def saveWire : Ty → Nat → W
   | .prim p, _ => p.wire
-  | .str cap, _ => .str cap
-  | .seq k t, v => .seq (seqMode k (match k with | .plain | .set | .bag => none | _ => bulkInfo t v)) (saveWire t v)
-  | .map k x, v => .seq {} (.prod (.cons (saveWire k v) (.cons (saveWire x v) .nil)))
+  | .str cap _, _ => .str cap
+  | .seq k t, v => .seq (seqMode k (match k with | .plain | .set | .bag | .indexSet => none | _ => bulkInfo t v)) (saveWire t v)
+  | .map _ k x, v => .seq {} (.prod (.cons (saveWire k v) (.cons (saveWire x v) .nil)))
   | .opt t, v => .opt (saveWire t v)
   | .res a b, v => .res (saveWire a v) (saveWire b v)
   | .wrap _ t, v => saveWire t v
@@ -399,7 +409,7 @@ mutual
 /- memory value built from the wire value read at version `v` -/
 def fill (env : UserFns) : Ty → Nat → V → V
   | .seq _ t, v, .seq l => .seq (mapVL (fill env t v) l)
-  | .map k x, v, .seq l => .seq (mapPairs (fill env k v) (fill env x v) l)
+  | .map _ k x, v, .seq l => .seq (mapPairs (fill env k v) (fill env x v) l)
   | .opt t, v, .some x => .some (fill env t v x)
   | .res a _, v, .alt 1 x => .alt 1 (fill env a v x)
   | .res _ b, v, .alt 0 x => .alt 0 (fill env b v x)
@@ -465,7 +475,7 @@ mutual
 /- wire value a writer at version `v` produces from a memory value -/
 def proj : Ty → Nat → V → Except SaveFail V
   | .seq _ t, v, .seq l => (mapMVL (proj t v) l).map .seq
-  | .map k x, v, .seq l => (mapMPairs (proj k v) (proj x v) l).map .seq
+  | .map _ k x, v, .seq l => (mapMPairs (proj k v) (proj x v) l).map .seq
   | .opt _, _, .none => .ok .none
   | .opt t, v, .some x => (proj t v x).map .some
   | .res a _, v, .alt 1 x => (proj a v x).map (.alt 1)
